@@ -273,10 +273,17 @@ func (e *menv) stmt(s ast.Stmt, guard string, last bool) {
 			}
 		case *ast.CallExpr:
 			v := e.eval(r)
-			if e.res != nil || v.kind != "deep" || v.src != (src{}) {
+			if e.res != nil || v.src != (src{}) {
 				refuse("%s: unsupported return expression", e.pos(s))
 			}
-			e.direct = v.mode
+			switch v.kind {
+			case "deep":
+				e.direct = v.mode
+			case "sliceOf":
+				e.direct = &Mode{K: "freshSlice", Elem: v.mode}
+			default:
+				refuse("%s: unsupported return expression (%s)", e.pos(s), v.kind)
+			}
 		case *ast.CompositeLit:
 			if e.res != nil {
 				refuse("%s: returns a literal although a result variable exists", e.pos(s))
@@ -506,6 +513,19 @@ func (e *menv) eval(ex ast.Expr) *value {
 			v.keys = append(v.keys, k)
 		}
 		return v
+	case *ast.IndexExpr:
+		// recv.F[i] (or recv[i]) where i is the key variable of the loop over the same source
+		b := e.eval(x.X)
+		k := e.eval(x.Index)
+		if b.kind == "asis" && b.src.part == "" && k.kind == "asis" && k.src.part == "key" && k.src.field == b.src.field {
+			switch u := b.typ.Underlying().(type) {
+			case *types.Slice:
+				return &value{kind: "asis", src: src{field: b.src.field, part: "elem"}, typ: u.Elem()}
+			case *types.Map:
+				return &value{kind: "asis", src: src{field: b.src.field, part: "val"}, typ: u.Elem()}
+			}
+		}
+		refuse("%s: unsupported index expression", e.pos(ex))
 	case *ast.CallExpr:
 		return e.call(x)
 	}
@@ -577,6 +597,21 @@ func (e *menv) call(c *ast.CallExpr) *value {
 				refuse("%s: %s applied to a value of static type %s", e.pos(c), fn.Name(), x.typ)
 			}
 			return &value{kind: "dyn", src: x.src, mode: &Mode{K: "dyn"}, typ: x.typ}
+		}
+	}
+	if id, ok := ast.Unparen(c.Fun).(*ast.Ident); ok {
+		if fn, ok := info.Uses[id].(*types.Func); ok && fn.Pkg() != nil && fn.Pkg().Path() == astPkgPath && len(c.Args) == 1 && c.Ellipsis == token.NoPos {
+			if sig := fn.Type().(*types.Signature); sig.Recv() == nil && sig.Params().Len() == 1 && sig.Results().Len() == 1 && !sig.Variadic() {
+				x := e.eval(c.Args[0])
+				if x.kind != "asis" {
+					refuse("%s: helper %s applied to something that is not (part of) the receiver", e.pos(c), fn.Name())
+				}
+				if !types.Identical(x.typ, sig.Params().At(0).Type()) && !types.Identical(x.typ.Underlying(), sig.Params().At(0).Type().Underlying()) {
+					refuse("%s: helper %s takes %s, applied to %s", e.pos(c), fn.Name(), sig.Params().At(0).Type(), x.typ)
+				}
+				md := e.w.analyseHelper(fn, c)
+				return &value{kind: "deep", src: x.src, mode: &md, typ: sig.Results().At(0).Type()}
+			}
 		}
 	}
 	sel, ok := ast.Unparen(c.Fun).(*ast.SelectorExpr)
@@ -835,4 +870,70 @@ func (e *menv) classifyEvents(field string, t types.Type, evs []*value, at ast.N
 	}
 	refuse("%s: field %q: unsupported sequence of writes [%s]", e.pos(at), field, how)
 	return Mode{}, how
+}
+
+// ---------------------------------------------------------------- same-package copy helpers
+
+// analyseHelper: an unexported package-level func(x T) T' of package ast called on (part of) the
+// receiver.  Its body is read with the rules of a DeepCopy body, the parameter playing the
+// receiver and the result the copy; the mode of the whole parameter is returned.  Helpers may
+// call helpers, two levels deep at most.
+func (w *world) analyseHelper(fn *types.Func, at ast.Node) Mode {
+	if md, ok := w.helpers[fn]; ok {
+		return md
+	}
+	if w.helperBusy[fn] {
+		refuse("%s: recursive copy helper %s", w.pos(at), fn.Name())
+	}
+	if w.helperDepth >= 2 {
+		refuse("%s: copy helpers nested more than two levels deep (%s)", w.pos(at), fn.Name())
+	}
+	var decl *ast.FuncDecl
+	for _, f := range w.astPkg.Syntax {
+		for _, d := range f.Decls {
+			if fd, ok := d.(*ast.FuncDecl); ok && w.info().Defs[fd.Name] == fn {
+				decl = fd
+			}
+		}
+	}
+	if decl == nil || decl.Body == nil || len(decl.Type.Params.List) != 1 || len(decl.Type.Params.List[0].Names) != 1 {
+		refuse("%s: copy helper %s: unsupported declaration", w.pos(at), fn.Name())
+	}
+	pid := decl.Type.Params.List[0].Names[0]
+	param := w.info().Defs[pid]
+	sig := fn.Type().(*types.Signature)
+	base := param.Type()
+	if _, ok := base.(*types.Pointer); ok {
+		refuse("%s: copy helper %s takes a pointer", w.pos(at), fn.Name())
+	}
+	m := &method{decl: decl, recvName: pid.Name, recvObj: param, name: "helper " + fn.Name(), base: base, result: sig.Results().At(0).Type()}
+	w.helperBusy[fn] = true
+	w.helperDepth++
+	fms, root := w.analyseFunc(m, decl.Body.List, decl)
+	w.helperDepth--
+	w.helperBusy[fn] = false
+	var md Mode
+	if fms != nil {
+		named, ok := types.Unalias(base).(*types.Named)
+		if !ok {
+			refuse("%s: copy helper %s rebuilds an unnamed struct", w.pos(at), fn.Name())
+		}
+		w.addCopy(typeName(named), fms) // must agree with the struct's DeepCopy method, if any
+		md = Mode{K: "recur", T: typeName(named)}
+	} else {
+		md = *root
+	}
+	w.helpers[fn] = md
+	w.out.CopyHelpers = append(w.out.CopyHelpers, fn.Name()+": "+modeString(md))
+	return md
+}
+
+func modeString(m Mode) string {
+	switch m.K {
+	case "freshSlice", "freshMap":
+		return m.K + "(" + modeString(*m.Elem) + ")"
+	case "recur", "viaPtrRec":
+		return m.K + " " + m.T
+	}
+	return m.K
 }
